@@ -375,6 +375,21 @@ def c20_runtime(tier):
         if got != want:
             fails.append(dict(cmd="fundraisingd " + args, rc=rc, output="typed arguments and generated message differ", expected=want, got=got))
         samples.append(dict(cmd=args, message=got))
+    # what the user types is what is sent, also when too much is typed: every request field of this module's
+    # transactions is a single value, so one argument more than the usage line shows must be refused, not silently
+    # dropped or used to overwrite an earlier one
+    for args, want in cases:
+        words = args.split(" ")
+        extra = " ".join(words[:3] + [words[3]] + words[3:])     # the first positional argument typed twice
+        ran += 1
+        rc, out = sh("timeout 120 %s %s %s --home %s" % (B, extra, T, home))
+        if rc == 0 and '"messages"' in out:
+            try:
+                got = json.loads(out[out.index("{"):])["body"]["messages"]
+            except Exception:
+                got = out[-400:]
+            fails.append(dict(cmd="fundraisingd " + extra, rc=rc, output="a surplus positional argument is accepted: the generated transaction cannot contain everything that was typed",
+                              typed=words[3:] + [words[3]], got=got))
     # a query command needs a node; without one it must fail with a connection error, not with a binding error
     rc, out = sh("timeout 60 %s query fundraising get-bid 1 2 --node tcp://127.0.0.1:1 --home %s" % (B, home)); ran += 1
     if "can't find field" in out or "unknown command" in out or "accepts" in out:
